@@ -12,6 +12,7 @@ EXTENDS DocGen, Builder
 
 BLeaves == {"P", "H1", "H2", "Code", "Ref", "EI"}
 BLeavesSmall == {"P", "H2", "Code", "EI"}
+BLeavesAll == {"P", "H1", "H2", "Code", "Ref", "EI", "Rule", "Tbl"}
 BConts == {"BL", "Q"}
 BContsOL == {"BL", "OL", "Q"}
 BLists == {"BL"}
